@@ -57,6 +57,38 @@ theorem split_preserves {σ ν : Type} [DecidableEq σ] [DecidableEq ν] (sname 
   unfold mapOut
   exact lookup_map sname (fun s => evalS r s) (pre a) k.2 hpre (fun s' hs' he => by rw [hs k.2 hpre s' hs' he])
 
+/-- **A whole select list**: the row the three layers produce has one column per select item, *in the order of the select list*,
+under the item's output name and with the item's value — for any number of items (aggregate-free ones, such as literals, included,
+wherever they stand) and any naming that is injective on the aggregates of the list and on their arguments. -/
+theorem split_list_preserves {ι σ ν : Type} [DecidableEq σ] [DecidableEq ν] (sname : S → σ) (name : Agg × S → ν)
+    (items : List (ι × A)) (rows : List Row)
+    (hs : ∀ k ∈ aggsAll items, ∀ k' ∈ aggsAll items, sname k'.2 = sname k.2 → k'.2 = k.2)
+    (hn : ∀ k ∈ aggsAll items, ∀ k' ∈ aggsAll items, name k' = name k → k' = k) :
+    evalSplitAll sname name items rows = items.map fun it => (it.1, evalA rows it.2) := by
+  unfold evalSplitAll topAll
+  rw [List.map_map]
+  apply List.map_congr_left
+  intro it hit
+  simp only [Function.comp]
+  congr 1
+  apply evalP_post sname name rows
+  intro k hk
+  have hkall : k ∈ aggsAll items := by
+    unfold aggsAll; exact List.mem_flatMap.mpr ⟨it, hit, hk⟩
+  unfold reduceOutAll
+  rw [lookup_map name (fun k => aggFn k.1 (rows.map fun r => lookup (mapOutAll sname items r) (sname k.2))) (aggsAll items) k hkall
+    (fun k' hk' he => by rw [hn k hkall k' hk' he])]
+  congr 1
+  apply List.map_congr_left
+  intro r _
+  unfold mapOutAll
+  exact lookup_map (fun k : Agg × S => sname k.2) (fun k => evalS r k.2) (aggsAll items) k hkall
+    (fun k' hk' he => by rw [hs k hkall k' hk' he])
+
+/-- non-vacuity: `SELECT 7 AS l, count(c0) AS n, sum(c0) + 1 AS t` — the literal stays first -/
+example : evalSplitAll id id [("l", A.lit 7), ("n", A.agg .count (.col 0)), ("t", A.app2 .plus (A.agg .sum (.col 0)) (A.lit 1))] [[3], [5]]
+    = [("l", 7), ("n", 2), ("t", 9)] := by decide
+
 /-- with the identity naming (content itself) the hypotheses hold trivially -/
 theorem split_preserves_content_names (a : A) (rows : List Row) : evalSplit id id a rows = evalA rows a :=
   split_preserves id id a rows (fun _ _ _ _ h => h) (fun _ _ _ _ h => h)
